@@ -417,6 +417,8 @@ class Normaliser:
                 return True
             if isinstance(n, ast.If) and isinstance(n.test, ast.Constant):
                 return True
+            if isinstance(n, ast.For) and isinstance(n.iter, ast.GeneratorExp):
+                return True
             if isinstance(n, ast.comprehension):
                 it = n.iter
                 if (isinstance(it, ast.Attribute) and it.attr.isupper()) or (isinstance(it, ast.Name) and it.id.isupper()):
@@ -481,6 +483,7 @@ class Normaliser:
             c5 = self._fold_table_comprehensions(fn, mod, cls)
             c5 = self._unroll_constant_tables(fn, mod, cls) or c5
             c5 = self._fold_constant_ifs(fn) or c5
+            c5 = self._loops_over_genexp(fn) or c5
             c5 = self._sink_table_loops(fn, mod, cls) or c5
             for _k in range(8):
                 if not self._split_on_table_lookup(fn, mod, cls):
@@ -840,10 +843,19 @@ class Normaliser:
                 given = {f for f, _ in order}
                 for f, dflt in fields:
                     if f not in given:
-                        if dflt is None or not isinstance(dflt, ast.Constant):
+                        if isinstance(dflt, ast.Call) and ast.unparse(dflt.func).split('.')[-1] == 'field' and not dflt.args \
+                                and len(dflt.keywords) == 1 and dflt.keywords[0].arg == 'default_factory' \
+                                and isinstance(dflt.keywords[0].value, ast.Name) \
+                                and dflt.keywords[0].value.id in ('set', 'list', 'dict'):
+                            dflt = ast.Call(func=ast.Name(id=dflt.keywords[0].value.id, ctx=ast.Load()), args=[], keywords=[])
+                        elif isinstance(dflt, ast.Call) and ast.unparse(dflt.func).split('.')[-1] == 'field' and not dflt.args \
+                                and len(dflt.keywords) == 1 and dflt.keywords[0].arg == 'default' \
+                                and isinstance(dflt.keywords[0].value, ast.Constant):
+                            dflt = dflt.keywords[0].value
+                        elif dflt is None or not isinstance(dflt, ast.Constant):
                             ok = False
                             break
-                        order.append((f, dflt))
+                        order.append((f, clone(dflt)))
                 if not ok:
                     break
                 plans.append((d, order))
@@ -1227,7 +1239,7 @@ class Normaliser:
                 if any(nm in params for nm in names):
                     continue
                 tail = blk[i + 1:]
-                if not tail or sum(1 for t_ in tail for _ in ast.walk(t_) if isinstance(_, ast.stmt)) > 40:
+                if not tail or sum(1 for t_ in tail for _ in ast.walk(t_) if isinstance(_, ast.stmt)) > 80:
                     continue
                 in_tail = {id(x) for t_ in tail for x in ast.walk(t_)}
                 # the names are not bound again in the rest of the block ...
@@ -1439,6 +1451,65 @@ class Normaliser:
                     lp.iter = branch[0].value
                     branch[:] = [lp]
                 del blk[i + 1]
+                changed = True
+                break
+        return changed
+
+    def _loops_over_genexp(self, fn: ast.AST) -> bool:
+        """`for v in (E for x in XS if C): BODY` - also through a local bound once to the generator
+        expression and read only by the loop - is `for x in XS: if C: v = E; BODY`"""
+        changed = False
+        for blk in list(self._blocks(fn)):
+            for i, st in enumerate(blk):
+                if not (isinstance(st, ast.For) and not st.orelse):
+                    continue
+                gen, drop = None, None
+                if isinstance(st.iter, ast.GeneratorExp):
+                    gen = st.iter
+                elif isinstance(st.iter, ast.Name) and i > 0:
+                    nm = st.iter.id
+                    uses = [x for x in ast.walk(fn) if isinstance(x, ast.Name) and x.id == nm]
+                    j = i - 1
+                    # plain assignments without calls may sit between the definition and the loop
+                    while j >= 0 and not (isinstance(blk[j], ast.Assign) and len(blk[j].targets) == 1
+                                          and isinstance(blk[j].targets[0], ast.Name) and blk[j].targets[0].id == nm):
+                        mid = blk[j]
+                        if not (isinstance(mid, (ast.Assign, ast.AnnAssign)) and getattr(mid, 'value', None) is not None
+                                and not any(isinstance(x, (ast.Call, ast.Await, ast.Yield, ast.NamedExpr))
+                                            for x in ast.walk(mid))):
+                            j = -1
+                            break
+                        j -= 1
+                    prev = blk[j] if j >= 0 else None
+                    if prev is not None and isinstance(prev.value, ast.GeneratorExp):
+                        gen_names = {x.id for x in ast.walk(prev.value) if isinstance(x, ast.Name)}
+                        rebound = {x.id for m_ in blk[j + 1:i] for x in ast.walk(m_)
+                                   if isinstance(x, ast.Name) and isinstance(x.ctx, ast.Store)}
+                        # every other occurrence of the name is another such definition / loop pair
+                        loads = [x for x in uses if isinstance(x.ctx, ast.Load)]
+                        stores = [x for x in uses if isinstance(x.ctx, ast.Store)]
+                        if len(loads) == len(stores) and not (gen_names & rebound):
+                            gen, drop = prev.value, j
+                if gen is None or len(gen.generators) != 1 or gen.generators[0].is_async:
+                    continue
+                g = gen.generators[0]
+                inner_names = {x.id for x in ast.walk(g.target) if isinstance(x, ast.Name)}
+                body_names = {x.id for b in st.body for x in ast.walk(b) if isinstance(x, ast.Name)} | {
+                    x.id for x in ast.walk(st.target) if isinstance(x, ast.Name)}
+                if inner_names & body_names:
+                    continue
+                if any(isinstance(x, ast.Name) and x.id in inner_names and isinstance(x.ctx, ast.Load)
+                       for s2 in blk[i + 1:] for x in ast.walk(s2)):
+                    continue            # the generator's own variable would leak into later code
+                body = [ast.copy_location(ast.Assign(targets=[clone(st.target)], value=gen.elt), st)] + list(st.body)
+                for cond in reversed(g.ifs):
+                    body = [ast.copy_location(ast.If(test=cond, body=body, orelse=[]), st)]
+                new = ast.copy_location(ast.For(target=g.target, iter=g.iter, body=body, orelse=[]), st)
+                ast.fix_missing_locations(new)
+                if drop is not None:
+                    blk[drop:i + 1] = blk[drop + 1:i] + [new]
+                else:
+                    blk[i] = new
                 changed = True
                 break
         return changed
@@ -1701,6 +1772,24 @@ class Normaliser:
                 for n in getattr(mod, 'body', []):
                     if isinstance(n, ast.ClassDef) and n.name == recv:
                         owner = n
+            if owner is None and cls is not None:
+                # rv = Representation(..) inside a method of Representation: a local instance of the class
+                defs_r = [a_.value for a_ in ast.walk(fn) if isinstance(a_, (ast.Assign, ast.AnnAssign))
+                          and getattr(a_, 'value', None) is not None
+                          and any(isinstance(t_, ast.Name) and t_.id == recv
+                                  for t_ in (a_.targets if isinstance(a_, ast.Assign) else [a_.target]))]
+                n_store = sum(1 for x in ast.walk(fn) if isinstance(x, ast.Name) and x.id == recv
+                              and isinstance(x.ctx, (ast.Store, ast.Del)))
+                if defs_r and n_store == len(defs_r) and all(
+                        isinstance(d, ast.Call) and isinstance(d.func, ast.Name) and d.func.id in (cls.name, 'cls', 'clz')
+                        for d in defs_r):
+                    for m in cls.body:
+                        if isinstance(m, (ast.FunctionDef, ast.AsyncFunctionDef)) and m.name == f.attr \
+                                and not any(ast.unparse(d).split('.')[-1] in ('staticmethod', 'classmethod', 'property')
+                                            for d in m.decorator_list):
+                            if self.is_new(rel, f'{cls.name}.{m.name}'):
+                                return m, f.value, rel, False
+                            return None
             if owner is not None:
                 for m in owner.body:
                     if isinstance(m, (ast.FunctionDef, ast.AsyncFunctionDef)) and m.name == f.attr:
